@@ -496,6 +496,49 @@ fn norm(img: &[(String, String)]) -> Vec<(String, Vec<String>)> {
         .collect()
 }
 
+/// Typed reading of the DEP-3 header's custom-deserialised fields, compared with the harness's own reading of the raw
+/// text (category prefix, `commit:` prefix, keywords, ISO date): images alone cannot tell `Other("commit:x")` from `Commit("x")`.
+fn typed_spot_dep3(lp: &LP, gp: &GenPara) -> CheckResult {
+    use dep3::{AppliedUpstream, Forwarded, Origin};
+    let x: dep3::lossy::PatchHeader = match deb822_lossless::FromDeb822Paragraph::from_paragraph(lp) {
+        Ok(x) => x,
+        Err(_) => return Ok(()), // reported by the image checks
+    };
+    let raw = |name: &str| gp.fields.iter().find(|f| f.spec.name == name).map(|f| f.value.lines.join("\n"));
+    if let Some(r) = raw("Origin") {
+        let (cat, rest) = match r.split_once(", ") {
+            Some((c, rest)) if ["backport", "vendor", "upstream", "other"].contains(&c) => (Some(c.to_string()), rest.to_string()),
+            _ => (None, r.clone()),
+        };
+        let want = match rest.strip_prefix("commit:") {
+            Some(id) => Origin::Commit(id.to_string()),
+            None => Origin::Other(rest.clone()),
+        };
+        let got = x.origin.as_ref().map(|(c, o)| (c.as_ref().map(|c| c.to_string()), o.clone()));
+        ensure_eq!(got, Some((cat, want)), "typed-value/dep3-origin", "PatchHeader.origin read from {:?}", r);
+    }
+    if let Some(r) = raw("Forwarded") {
+        let want = match r.as_str() {
+            "no" => Forwarded::No,
+            "not-needed" => Forwarded::NotNeeded,
+            other => Forwarded::Yes(other.to_string()),
+        };
+        ensure_eq!(x.forwarded.clone(), Some(want), "typed-value/dep3-forwarded", "PatchHeader.forwarded read from {:?}", r);
+    }
+    if let Some(r) = raw("Applied-Upstream") {
+        let want = match r.strip_prefix("commit:") {
+            Some(id) => AppliedUpstream::Commit(id.to_string()),
+            None => AppliedUpstream::Other(r.clone()),
+        };
+        ensure_eq!(x.applied_upstream.clone(), Some(want), "typed-value/dep3-applied-upstream", "PatchHeader.applied_upstream read from {:?}", r);
+    }
+    if let Some(r) = raw("Last-Update") {
+        let want = chrono::NaiveDate::parse_from_str(&r, "%Y-%m-%d").ok();
+        ensure_eq!(x.last_update, want, "typed-value/dep3-last-update", "PatchHeader.last_update read from {:?}", r);
+    }
+    Ok(())
+}
+
 fn check_shipped(s: Shipped, gp: &GenPara, prior: &GenPara, broken: &Option<(String, Option<String>)>) -> CheckResult {
     let (tname, table) = table_of(s);
     // the paragraph as both back-ends hold it (same name/value pairs)
@@ -531,6 +574,9 @@ fn check_shipped(s: Shipped, gp: &GenPara, prior: &GenPara, broken: &Option<(Str
             _ => return fail("error-expected", format!("{}: {} of field {:?} accepted: lossy {:?}, lossless {:?}", tname, if bad.is_none() { "removal" } else { "corruption" }, key, a, b)),
         }
         return Ok(());
+    }
+    if s == Shipped::Dep3 {
+        typed_spot_dep3(&lp, gp)?;
     }
     let want: Vec<(String, String)> = table.iter().filter_map(|sp| gp.fields.iter().find(|f| f.spec.name == sp.name).map(|f| (sp.name.to_string(), f.value.expected.clone()))).collect();
     let a = a.map_err(|e| crate::Failure { assertion: "from-paragraph/lossy".into(), message: format!("{}: {} (paragraph {:?})", tname, e, text) })?;
